@@ -331,7 +331,19 @@ func SolveBatch(fc *FnCtx, dir string, perCheckMs int) {
 // SolveFns: batch pass per function, then the portfolio for what is left.
 func SolveFns(fcs []*FnCtx, extra []*Oblig, dir string, timeout time.Duration, thorough bool) {
 	var wg sync.WaitGroup
+	// contexts of the extra (program-level / ground) obligations are batched as well
+	seenFc := map[*FnCtx]bool{}
 	for _, fc := range fcs {
+		seenFc[fc] = true
+	}
+	var extraFcs []*FnCtx
+	for _, o := range extra {
+		if o.Fc != nil && !seenFc[o.Fc] {
+			seenFc[o.Fc] = true
+			extraFcs = append(extraFcs, o.Fc)
+		}
+	}
+	for _, fc := range append(append([]*FnCtx{}, fcs...), extraFcs...) {
 		wg.Add(1)
 		go func(fc *FnCtx) {
 			defer wg.Done()
@@ -347,6 +359,10 @@ func SolveFns(fcs []*FnCtx, extra []*Oblig, dir string, timeout time.Duration, t
 			}
 		}
 	}
-	rest = append(rest, extra...)
+	for _, o := range extra {
+		if o.result == nil || thorough {
+			rest = append(rest, o)
+		}
+	}
 	SolveAll(rest, dir, timeout, thorough)
 }
